@@ -111,11 +111,16 @@ func (playWorld) Gen(seed uint64, tier string) core.Scenario {
 				evs = append(evs, PlayEv{Delta: d, Msg: ev.LibBytes()})
 			case 2: // tempo events, track 0 only
 				if t == 0 {
-					if d == 0 { // tempo events get distinct ticks
-						d = 1
+					pickUs := func() int {
+						return r.PickInt(500000, 250000, 1000000, 100000, 2000000, 333333, 1, 16777215, r.Range(50000, 3000000))
 					}
-					us := r.PickInt(500000, 250000, 1000000, 100000, 2000000, 333333, 1, 16777215, r.Range(50000, 3000000))
+					us := pickUs()
 					evs = append(evs, PlayEv{Delta: d, Msg: core.Hex{0xFF, 0x51, 0x03, byte(us >> 16), byte(us >> 8), byte(us)}})
+					// sometimes a second tempo event on the same tick: the later one in the file counts
+					for r.Chance(1, 3) {
+						us = pickUs()
+						evs = append(evs, PlayEv{Delta: 0, Msg: core.Hex{0xFF, 0x51, 0x03, byte(us >> 16), byte(us >> 8), byte(us)}})
+					}
 				} else {
 					evs = append(evs, PlayEv{Delta: d, Msg: uniq(t)})
 				}
@@ -400,6 +405,19 @@ func (s *PlaySc) Run(env *core.Env, st *core.Stats) (vs []core.Violation) {
 		return nil
 	}
 	exp, order, segments := s.refPlay()
+	sameTickTempo := false
+	{
+		var abs, lastT int64 = 0, -1
+		for _, e := range s.Tracks[0] {
+			abs += int64(e.Delta)
+			if len(e.Msg) == 6 && e.Msg[0] == 0xFF && e.Msg[1] == 0x51 {
+				if abs == lastT {
+					sameTickTempo = true
+				}
+				lastT = abs
+			}
+		}
+	}
 
 	var log []sendRec
 	var playErr error
@@ -517,6 +535,9 @@ func (s *PlaySc) Run(env *core.Env, st *core.Stats) (vs []core.Violation) {
 		}
 		if segments > 1 {
 			st.Probe("tempo-changes")
+		}
+		if sameTickTempo {
+			st.Probe("two-tempo-events-on-one-tick")
 		}
 		for _, p := range s.Ports {
 			if len(p.LatencyUs) > 0 {
